@@ -175,10 +175,10 @@ Theorem fresh_partial_guard ops0 sol ops x o :
   (x < length (objs (es s)) -> cleanb (es s) x = true) ->
   x < length (objs (es (solve s (Some sol)))) ->
   forallb quiet ops = true ->
-  get_obj (es s2) x = Some o ->
+  get_obj (es s2) x = Some o -> okind_of o <> KPoint [] ->
   snd (eval_obj (es s2) x) = pure_obj n (es s2) (okind_of o).
 Proof.
-  cbv zeta. intros G Hx Q Ho.
+  cbv zeta. intros G Hx Q Ho Hne.
   apply (fresh_partial ops0 sol ops x o); try assumption.
   apply guard_before_solve. intro H. apply cleanb_clean, G, H.
 Qed.
